@@ -22,8 +22,8 @@
    ([g1s_from_jac]), i.e. it follows from the order-r2 Jacobian claim of C01 (Y2s/Y2c constraints + first-order solution). *)
 From Coq Require Import Reals String List Lra QArith Qreals.
 From QSC Require Import Expr Shallow Series.
-From QSCGen Require Import G_init_axis G_r1_diagnostics G_residual G_calculate_r2 G_calculate_r3 G_calculate_r_singularity.
-From QSCProps Require Import C04_spec C01_spec C01.
+From QSCGen Require Import G_init_axis G_r1_diagnostics G_residual G_calculate_r2 G_calculate_r_singularity.
+From QSCProps Require Import C04_spec C01_spec C01_common C01_facts2 C01_r1 C01_r2base C01_r2a C01_r2b C01_r2c C01_r2.
 Import ListNotations.
 Open Scope R_scope.
 Open Scope string_scope.
